@@ -534,6 +534,42 @@ theorem checkAll_rows {fs : List (Nat × Cmd)} {rel : Trie (List Mutex)} {entry 
   simp only [Bool.and_eq_true, List.all_eq_true] at this
   exact this.2 r hrp
 
+theorem find_of_indexed : ∀ (fs : List (Nat × Cmd)) (k f : Nat),
+    (fs.zipIdx k).all (fun q => q.1.1 == q.2) = true → k ≤ f → f < k + fs.length →
+    ∃ body, (fs.find? fun p => p.1 == f) = some (f, body) := by
+  intro fs
+  induction fs with
+  | nil => intro k f _ h1 h2; simp at h2; omega
+  | cons p ps ih =>
+    intro k f hall h1 h2
+    simp only [List.zipIdx_cons, List.all_cons, Bool.and_eq_true, beq_iff_eq] at hall
+    by_cases hf : f = k
+    · subst hf
+      refine ⟨p.2, ?_⟩
+      have : (p.1 == f) = true := by simpa using hall.1
+      simp [List.find?_cons, this, ← hall.1]
+    · have hne : (p.1 == f) = false := by
+        have : p.1 = k := hall.1
+        simp [this]; omega
+      obtain ⟨body, hb⟩ := ih (k + 1) f hall.2 (by omega) (by simp at h2; omega)
+      exact ⟨body, by simp [List.find?_cons, hne, hb]⟩
+
+/-- with `indexedB`, every number below the length has a body -/
+theorem envOf_some_of_indexed {fs : List (Nat × Cmd)} (hidx : indexedB fs = true) {f : Nat} (hf : f < fs.length) :
+    ∃ body, envOf fs f = some body := by
+  obtain ⟨body, hb⟩ := find_of_indexed fs 0 f (by simpa [indexedB] using hidx) (Nat.zero_le _) (by omega)
+  exact ⟨body, by simp [envOf, hb]⟩
+
+/-- no dangling call: every call target of every body has a body -/
+theorem targets_resolve {fs : List (Nat × Cmd)} (hidx : indexedB fs = true) (hok : targetsOkB fs = true)
+    {g : Nat} {body : Cmd} (hb : envOf fs g = some body) {f : Nat} (hf : f ∈ targets body) :
+    ∃ b, envOf fs f = some b := by
+  unfold targetsOkB at hok
+  rw [List.all_eq_true] at hok
+  have := hok (g, body) (envOf_mem hb)
+  simp only [List.all_eq_true, decide_eq_true_eq] at this
+  exact envOf_some_of_indexed hidx (this f hf)
+
 /-- justification through the indexed rows -/
 theorem justT_held {rows : List (Nat × LS)} {t : Trie LS} {tokens : List Mutex} {a : Access}
     (hidx : rowsIndexedB rows t = true) (hj : justT t tokens a = true) {L hk : LS}
